@@ -781,6 +781,12 @@ func (e *Env) ExecAt(stmts []TStmt, base int) bool {
 					line += strOf(v)
 				}
 			}
+			if len(line) > 8000 {
+				// Fastly limits a log line (16 KiB, falco enforces it); strings of that size only arise from
+				// repeated self-concatenation and belong to the limits (C08), not to the semantics
+				e.oor("log line beyond the size the reference models")
+				return false
+			}
 			e.Logs = append(e.Logs, line)
 			e.snapshot("log")
 		case TIf:
